@@ -149,12 +149,12 @@ fn extract_mime(hs: &OrderedHeaders<'_>) -> S3Result<Option<Mime>> {
 fn extract_content_length(req: &Request) -> Option<u64> {
     req.headers
         .get(hyper::header::CONTENT_LENGTH)
-        .and_then(|val| atoi::atoi::<u64>(val.as_bytes()))
+        .and_then(|val| crate::utils::parser::parse_integer::<u64>(val.as_bytes()))
 }
 
 fn extract_decoded_content_length(hs: &'_ OrderedHeaders<'_>) -> S3Result<Option<usize>> {
     let Some(val) = hs.get_unique(crate::header::X_AMZ_DECODED_CONTENT_LENGTH) else { return Ok(None) };
-    match atoi::atoi::<usize>(val.as_bytes()) {
+    match crate::utils::parser::parse_integer::<usize>(val.as_bytes()) {
         Some(x) => Ok(Some(x)),
         None => Err(invalid_request!("invalid header: x-amz-decoded-content-length")),
     }
